@@ -101,6 +101,9 @@ def run_case(case):
     for b in bases:
         r1 = comp.compile_code(inp, comp.CompileOptions(**comp.opts(**b)))
         r2 = comp.compile_code(inp, comp.CompileOptions(**comp.opts(**dict(b, remove_labels=True))))
+        if comp.is_timeout(r1) or comp.is_timeout(r2):
+            # the constexpr / emit_code helper process timed out (machine load) even after the retries: says nothing about labels
+            continue
         if "code" in r1 and "code" in r2:
             n_pairs += 1
             bad = static_and_relation(r1["code"], r2["code"])
